@@ -1272,6 +1272,9 @@ class AbsExec:
                 if act is None:
                     raise self.unknown(s, "bare raise outside a handler")
                 raise act
+            f_ = s.exc.func if isinstance(s.exc, ast.Call) else s.exc
+            if isinstance(f_, ast.Name) and f_.id in BUILTIN_EXC and f_.id not in env:
+                raise Raised(f_.id, s)  # the message of an exception is not evaluated: only its class matters
             v = self.ev(s.exc, env) if s.exc is not None else None
             if isinstance(v, ExcValue):
                 raise Raised(v.cls, s)
